@@ -2,6 +2,7 @@ package verifsim
 
 import (
 	"context"
+	"errors"
 	"fmt"
 	"runtime"
 	"sort"
@@ -180,7 +181,13 @@ func runC11(r *simkit.Run) {
 type sharedStub struct {
 	host      component.Host
 	failStart bool
+	// Shutdown: optionally reports RecoverableError while stopping (with the error it is about to return, or another
+	// one) and optionally fails
+	failShutdown   bool
+	reportStopping int // 0 no report, 1 RecoverableError(same error), 2 RecoverableError(other error)
 }
+
+var errSharedShutdown = errors.New("stub: shared component shutdown failed")
 
 func (c *sharedStub) Start(_ context.Context, h component.Host) error {
 	c.host = h
@@ -189,7 +196,18 @@ func (c *sharedStub) Start(_ context.Context, h component.Host) error {
 	}
 	return nil
 }
-func (c *sharedStub) Shutdown(context.Context) error { return nil }
+func (c *sharedStub) Shutdown(context.Context) error {
+	switch c.reportStopping {
+	case 1:
+		componentstatus.ReportStatus(c.host, componentstatus.NewRecoverableErrorEvent(fmt.Errorf("still flushing: %w", errSharedShutdown)))
+	case 2:
+		componentstatus.ReportStatus(c.host, componentstatus.NewRecoverableErrorEvent(errors.New("stub: still flushing")))
+	}
+	if c.failShutdown {
+		return errSharedShutdown
+	}
+	return nil
+}
 
 // instHost is what the graph hands to a component for one instance: reports go to the service's reporter under the
 // instance's id.
@@ -227,7 +245,7 @@ func runC11Shared(r *simkit.Run) {
 		idx[ids[i]] = i
 	}
 	m := sharedcomponent.NewMap[string, *sharedStub]()
-	stub := &sharedStub{failStart: tp.Chance(1, 6)}
+	stub := &sharedStub{failStart: tp.Chance(1, 6), failShutdown: tp.Chance(1, 4), reportStopping: tp.Weighted(3, 1, 1)}
 	if stub.failStart {
 		r.Count("fault.shared_component_start_failure")
 	}
@@ -307,10 +325,25 @@ func runC11Shared(r *simkit.Run) {
 	for i := 0; i < attached && !r.Failed(); i++ {
 		i := i
 		r.Fire(fmt.Sprintf("stop:%d", i), func() {
+			// the service: Stopping, Shutdown, then Stopped or (failed Shutdown) PermanentError for this instance; the
+			// shared wrapper reports the same on the component's behalf to every instance, once
 			rep.ReportStatus(ids[i], componentstatus.NewEvent(sStopg))
-			_ = comps[i].Shutdown(context.Background())
-			rep.ReportStatus(ids[i], componentstatus.NewEvent(sStopd))
+			if err := comps[i].Shutdown(context.Background()); err != nil {
+				rep.ReportStatus(ids[i], componentstatus.NewPermanentErrorEvent(err))
+			} else {
+				rep.ReportStatus(ids[i], componentstatus.NewEvent(sStopd))
+			}
 		})
+		if i == 0 && !stub.failStart {
+			// the one real Shutdown has happened: its outcome is the component's most recent status
+			x := sStopd
+			if stub.failShutdown {
+				x = sPerm
+				r.Count("fault.shared_component_shutdown_failure")
+			}
+			last = &x
+			check("after the shared component was shut down through instance 0")
+		}
 	}
 	for i := 0; i < attached; i++ {
 		checkPath(r, fmt.Sprintf("instance %d", i), per[i])
